@@ -120,8 +120,8 @@ func AddBig() {
 func AssocBig() {
 	nk := sym.Param("keys")
 	a, _ := buildBig("a", nk, false)
-	b, _ := buildBig("b", nk, false)
-	c, _ := buildBig("c", nk, false)
+	b, qb := buildBig("b", nk, false)
+	c, qc := buildBig("c", nk, false)
 	a2, _ := buildBig("a", nk, false)
 	b2, _ := buildBig("b", nk, false)
 	c2, _ := buildBig("c", nk, false)
@@ -131,6 +131,10 @@ func AssocBig() {
 	a2.Add(b2) // a+(b+c)
 	sym.Reach("decided")
 	sym.Assert(a.Compare(a2), "Add is associative under Compare")
+	// the operands of a sum can be used again: later additions to the sum do not reach them
+	for k := 0; k < nk; k++ {
+		sym.Assert(qtyBig(b, k).Cmp(qb[k]) == 0 && qtyBig(c, k).Cmp(qc[k]) == 0, "a sum does not share state with its operands (adding to it later leaves them unchanged)")
+	}
 }
 
 type MI = common.MultiAsset[int64]
@@ -185,6 +189,10 @@ func AddInt64() {
 		sym.Assert(a.Asset(pol[keys[k][0]], nam[keys[k][1]]) == qa[k]+qb[k], "Add agrees with per-asset addition (int64, wrapping)")
 	}
 	sym.Assert(a.Compare(b2), "Add is commutative under Compare (int64)")
+	a.Add(a2) // a further addition to the sum must not reach the earlier operand
+	for k := 0; k < nk; k++ {
+		sym.Assert(b.Asset(pol[keys[k][0]], nam[keys[k][1]]) == qb[k], "a sum does not share state with its operands (int64)")
+	}
 }
 
 type MU = common.MultiAsset[uint64]
